@@ -382,10 +382,11 @@ impl AsmLine {
             Label::Ref(val) => val,
             Label::Unfilled(_) => panic!("Tried to offset unfilled label"),
         };
-        let (offset, _) = label_pos.overflowing_sub(self.line);
-        let offset = (offset as i16) - 1;
+        // Lines are kept modulo 2^16 (literal offsets rely on this), so is the difference
+        let offset = label_pos.wrapping_sub(self.line).wrapping_sub(1) as i16 as i32;
         // Must fit in specified offset bits
-        if offset.abs() > 2i16.pow(bits - 1) - if offset > 0 { 1 } else { 0 } {
+        let limit = 1i32 << (bits - 1);
+        if offset < -limit || offset >= limit {
             bail!(
                 severity = Severity::Error,
                 r#"Difference between label and label reference is too large: at line {}, referencing line {}
